@@ -186,6 +186,8 @@ def h13a_pre(si, d1i, d2i, c1, c2, question):
         return False
     if S("udp"):
         return c1 == n and c2 == n
+    if S("c1r") is not None and not (S("c1r")[0] <= c1 <= S("c1r")[1]):
+        return False
     return 1 <= c1 <= c2 <= n
 
 
@@ -196,7 +198,9 @@ def h13a_shards(tier):
     for kind in ("plain", "versioned"):
         for rel in ((True,) if tier == "quick" else (True, False)):
             for form in lens:
-                out.append({"zone": kind, "relativize": rel, "form": form, "n": lens[form], "udp": False, "_timeout": 1200, "_path_timeout": 60})
+                # (the long two-step IXFR stream is split by the position of the first cut)
+                for c1r in ([(1, 2), (3, 4), (5, 7), (8, lens[form])] if form == "ixfr2" else [None]):
+                    out.append({"zone": kind, "relativize": rel, "form": form, "n": lens[form], "udp": False, "c1r": c1r, "_timeout": 1200, "_path_timeout": 60})
             for form in ("ixfr1", "uptodate"):
                 out.append({"zone": kind, "relativize": rel, "form": form, "n": lens[form], "udp": True, "_timeout": 600, "_path_timeout": 60})
     return out
